@@ -71,7 +71,7 @@ Theorem C01_core_total :
      exists lm', run_headings lm levels = Ok lm' /\ In 0%N lm') /\
   (forall succs U, closed succs U -> forall ks, ks <> [] -> incl ks U ->
      expand succs (S (List.length U)) [] ks = Ok tt).
-Proof. split; [exact section_parent_exists | exact expand_total]. Qed.
+Proof. exact (conj section_parent_exists expand_total). Qed.
 Print Assumptions C01_core_total.
 
 (* Source-translation tie (round 3).  Gen/GuardSrc.v is regenerated on every run from the statements of
@@ -85,7 +85,7 @@ Theorem C01_core_total_src :
      expand_subst_src succs (S (List.length U)) [] refs = Ok []) /\
   (forall succs U, (forall k k', In k' (succs k) -> In k' U) -> forall key, In key U ->
      expand_include_src succs (S (List.length U)) [] key = Ok []).
-Proof. split; [exact subst_src_total | exact include_src_total]. Qed.
+Proof. exact (conj subst_src_total include_src_total). Qed.
 Print Assumptions C01_core_total_src.
 
 (* the translated guards refine the hand-written model: same outcome, guard state given back unchanged *)
@@ -94,7 +94,7 @@ Theorem C01_guards_refine_model :
      expand_subst_src succs fuel active refs = lift (expand succs fuel active refs) active) /\
   (forall succs fuel log active key, equivm log active ->
      expand_include_src succs fuel log key = lift (expand (lift_inc succs) fuel active [key]) log).
-Proof. split; [exact subst_src_refines | exact include_src_refines]. Qed.
+Proof. exact (conj subst_src_refines include_src_refines). Qed.
 Print Assumptions C01_guards_refine_model.
 
 (* handler bodies (regenerated column "what the except clause does"): every except clause / suppress block of
@@ -109,7 +109,7 @@ Print Assumptions C01_handlers_report.
 (* without the include log (the code before the repair) a self-including file exhausts every fuel *)
 Theorem C01_include_without_log_refuted :
   exists succs ks, forall fuel, expand_nolog succs fuel ks = Raise OutOfFuel.
-Proof. exists succs_self, [[97%N]]. intro fuel. apply nolog_self_diverges. Qed.
+Proof. exact (ex_intro _ succs_self (ex_intro _ [[97%N]] (fun fuel => nolog_self_diverges fuel [[97%N]]))). Qed.
 Print Assumptions C01_include_without_log_refuted.
 
 (* the premise "every call names a key" of C01_core_total is needed: a substitution whose
